@@ -22,32 +22,6 @@ open Roaring Roaring.Multi Roaring.Spec
 
 variable {ε : Type}
 
-def specOp : Op → MOp
-  | .or => .or
-  | .and => .and
-  | .sub => .sub
-  | .xor => .xor
-
-/-- the items seen through the abstraction -/
-def elemsItems (xs : List (Except ε Bitmap)) : List (Except ε Spec.Set) := xs.map (Except.map Bitmap.elems)
-
-theorem firstError_elemsItems : ∀ xs : List (Except ε Bitmap), firstError (elemsItems xs) = firstError xs
-  | [] => rfl
-  | .error _ :: _ => rfl
-  | .ok _ :: r => by
-    have := firstError_elemsItems r
-    simpa [elemsItems, firstError, Except.map] using this
-
-theorem okValues_elemsItems : ∀ xs : List (Except ε Bitmap),
-    okValues (elemsItems xs) = (okValues xs).map Bitmap.elems
-  | [] => rfl
-  | .error _ :: r => by
-    have := okValues_elemsItems r
-    simpa [elemsItems, okValues, Except.map] using this
-  | .ok _ :: r => by
-    have := okValues_elemsItems r
-    simpa [elemsItems, okValues, Except.map] using this
-
 /-! ## kernel-free `Result` laws -/
 
 /-- **An error in the first item is returned** — every operation, owned items, every truthful `size_hint`. -/
@@ -115,11 +89,6 @@ theorem C09_empty (op : Op) (h : Hint) :
 
 section Kernelled
 
-theorem andOwnedLaw (K : Kernel) : AssignLaw andAssignOwned sAnd := ⟨andAssignOwned_nil, K.andOwned⟩
-theorem andRefLaw (K : Kernel) : AssignLaw andAssignRef sAnd := ⟨andAssignRef_nil, K.andRef⟩
-theorem subRefLaw (K : Kernel) : AssignLaw subAssignRef sSub := ⟨subAssignRef_nil, K.subRef⟩
-theorem subOwnedLaw (K : Kernel) : AssignLaw subAssignOwned sSub := ⟨subAssignOwned_nil, K.subRef⟩
-
 /-- **Union = fold of `∪`**, for `Result` items of owned values: every sequence, every truthful `size_hint`,
     every key-sorted permutation the unstable sort may produce.  (With an error: the first error.) -/
 theorem C09_union_owned_partial (K : Kernel) (sort : List Bitmap → List Bitmap) (hs : IsSortDesc nContainers sort)
@@ -173,8 +142,8 @@ theorem C09_difference_partial (K : Kernel) (xs : List (Except ε Bitmap)) (hwf 
     (tryMultiSubRef xs).map Bitmap.elems = .ok (Spec.multi .sub ((okValues xs).map Bitmap.elems)) :=
   ⟨subWith_ok (subOwnedLaw K) hwf hfe, subWith_ok (subRefLaw K) hwf hfe⟩
 
-/-- all-`Ok` ↦ `Ok(fold)` for the executable model (the sorts the driver runs), owned items -/
-theorem tryMultiOwned_ok (K : Kernel) (op : Op) (h : Hint) (xs : List (Except ε Bitmap)) (hh : Hint.Admissible h xs.length)
+/-- **All-`Ok` ↦ `Ok(fold)`** for the executable model (the sorts the driver runs), owned items. -/
+theorem C09_all_ok_owned_partial (K : Kernel) (op : Op) (h : Hint) (xs : List (Except ε Bitmap)) (hh : Hint.Admissible h xs.length)
     (hwf : ∀ b ∈ okValues xs, WF b) (hfe : firstError xs = none) :
     (tryMultiOwned op h xs).map Bitmap.elems = .ok (Spec.multi (specOp op) ((okValues xs).map Bitmap.elems)) := by
   cases op
@@ -185,7 +154,8 @@ theorem tryMultiOwned_ok (K : Kernel) (op : Op) (h : Hint) (xs : List (Except ε
   · have := C09_symmetric_difference_owned_partial K xs hwf
     rw [hfe] at this; exact this
 
-theorem tryMultiRef_ok (K : Kernel) (op : Op) (h : Hint) (xs : List (Except ε Bitmap)) (hh : Hint.Admissible h xs.length)
+/-- … borrowed items. -/
+theorem C09_all_ok_ref_partial (K : Kernel) (op : Op) (h : Hint) (xs : List (Except ε Bitmap)) (hh : Hint.Admissible h xs.length)
     (hwf : ∀ b ∈ okValues xs, WF b) (hfe : firstError xs = none) :
     (tryMultiRef op h xs).map Bitmap.elems = .ok (Spec.multi (specOp op) ((okValues xs).map Bitmap.elems)) := by
   cases op
@@ -195,38 +165,6 @@ theorem tryMultiRef_ok (K : Kernel) (op : Op) (h : Hint) (xs : List (Except ε B
   · exact (C09_difference_partial K xs hwf hfe).2
   · have := C09_symmetric_difference_ref_partial K xs hwf
     rw [hfe] at this; exact this
-
-theorem mem_multiRes_of {op : MOp} {xs : List (Except ε Spec.Set)} {r : Except ε Spec.Set}
-    (hok : firstError xs = none → r = .ok (Spec.multi op (okValues xs)))
-    (herr0 : ∀ e t, xs = Except.error e :: t → r = .error e)
-    (herr : ∀ e, firstError xs = some e → r = .error e ∨ ((op = .and ∨ op = .sub) ∧ r = .ok []))
-    : r ∈ Spec.multiRes op xs := by
-  unfold Spec.multiRes
-  cases hfe : firstError xs with
-  | none => simp [hok hfe]
-  | some e =>
-    simp only
-    cases op with
-    | or => rcases herr e hfe with h | ⟨h, _⟩ <;> simp_all
-    | xor => rcases herr e hfe with h | ⟨h, _⟩ <;> simp_all
-    | and =>
-      match xs, hfe, herr0, herr with
-      | [], hfe, _, _ => simp [firstError] at hfe
-      | .error e' :: t, hfe, herr0, _ =>
-        simp only [firstError, Option.some.injEq] at hfe
-        subst hfe
-        simp [herr0 e' t rfl]
-      | .ok a :: t, hfe, _, herr =>
-        rcases herr e hfe with h | ⟨_, h⟩ <;> simp [h]
-    | sub =>
-      match xs, hfe, herr0, herr with
-      | [], hfe, _, _ => simp [firstError] at hfe
-      | .error e' :: t, hfe, herr0, _ =>
-        simp only [firstError, Option.some.injEq] at hfe
-        subst hfe
-        simp [herr0 e' t rfl]
-      | .ok a :: t, hfe, _, herr =>
-        rcases herr e hfe with h | ⟨_, h⟩ <;> simp [h]
 
 /-- **The whole `Result` law, owned items** (`impl MultiOps<Result<RoaringBitmap, E>> for I`): the outcome,
     seen through `elems`, is one of the outcomes the SPEC admits — `Ok(fold)` when all items are `Ok`; the
@@ -238,7 +176,7 @@ theorem C09_result_owned_partial (K : Kernel) (op : Op) (h : Hint) (xs : List (E
   · intro hfe
     rw [firstError_elemsItems] at hfe
     rw [okValues_elemsItems]
-    exact tryMultiOwned_ok K op h xs hh hwf hfe
+    exact C09_all_ok_owned_partial K op h xs hh hwf hfe
   · intro e t hx
     match xs, hx, hh with
     | .error e' :: t', hx, hh =>
@@ -271,7 +209,7 @@ theorem C09_result_ref_partial (K : Kernel) (op : Op) (h : Hint) (xs : List (Exc
   · intro hfe
     rw [firstError_elemsItems] at hfe
     rw [okValues_elemsItems]
-    exact tryMultiRef_ok K op h xs hh hwf hfe
+    exact C09_all_ok_ref_partial K op h xs hh hwf hfe
   · intro e t hx
     match xs, hx, hh with
     | .error e' :: t', hx, hh =>
@@ -304,8 +242,8 @@ theorem C09_fold_partial (K : Kernel) (op : Op) (h : Hint) (l : List Bitmap) (hh
     Bitmap.elems (multiRef op h l) = Spec.multi (specOp op) (l.map Bitmap.elems) := by
   have hh' : Hint.Admissible h (l.map (Except.ok (ε := Empty))).length := by simpa using hh
   have hwf' : ∀ b ∈ okValues (l.map (Except.ok (ε := Empty))), WF b := by simpa using hwf
-  have h1 := tryMultiOwned_ok K op h (l.map (Except.ok (ε := Empty))) hh' hwf' (firstError_map_ok l)
-  have h2 := tryMultiRef_ok K op h (l.map (Except.ok (ε := Empty))) hh' hwf' (firstError_map_ok l)
+  have h1 := C09_all_ok_owned_partial K op h (l.map (Except.ok (ε := Empty))) hh' hwf' (firstError_map_ok l)
+  have h2 := C09_all_ok_ref_partial K op h (l.map (Except.ok (ε := Empty))) hh' hwf' (firstError_map_ok l)
   rw [okValues_map_ok] at h1 h2
   unfold multiOwned multiRef
   constructor
